@@ -62,6 +62,8 @@ const c27MaxCommentNesting = 24
 
 const c27MaxRenderedErrors = 30
 
+const c27MaxInputBytes = 16 << 10
+
 func init() {
 	core.Register(&core.Check{
 		ID: "C27", Level: "exploration",
@@ -72,7 +74,7 @@ func init() {
 			"over a store with hostile balances (rich, zero, negative, 2^200, missing entries, store error) and metadata for every meta() key of the program (well-formed or malformed for its declared type, or missing). " +
 			"Shape = (origin, mutation kinds, compile outcome class, outcome of each stage of the first execution). Non-trivial = the input compiled and was executed.",
 		Assumptions: []string{
-			"inputs are at most ~64 KiB and nesting depth at most ~3000: stack exhaustion by megabytes of nesting is not explored",
+			"explored envelope: inputs of at most 16 KiB, nesting depth of sources/destinations/monetaries at most ~3000, at most 24 comment openers `/*` per input, and error lists rendered with Error() only up to 30 errors: beyond these the unchanged tree needs seconds to minutes per input (nested or unbalanced comments: 1 KiB -> 5 s, 2.3 KiB -> 42 s, 64 KiB -> 3 min; Error() of 4.5 KiB of garbage -> 1.5 MiB of text in 5-7 s), which a wall-clock watchdog may only report as inconclusive; the scaling is recorded in the evidence (nested_comment_compile_wall_time_not_a_verdict) and reported to the lead",
 			"a store that violates its contract (nil *big.Int balances, nil account with nil error) is out of scope; store errors, missing entries and negative balances are in scope",
 			"hang detection is a wall-clock watchdog (20 s per input, generous: typical inputs take < 5 ms) and only ever yields INCONCLUSIVE",
 			"Machine.Printer is replaced by a draining printer (the default one writes every `print` to stdout)",
@@ -149,6 +151,8 @@ var c27Corpus = []string{
 	"send [COIN 1000] (\n  source = @world\n  destination = {\n    1/2 to {\n      max [COIN 100] to @a\n      remaining to {\n        1/3 to @b\n        2/3 to @c\n      }\n    }\n    1/2 to @d\n  }\n)\n",
 	// 32 two balances of the same account, spent from @world and into allotments
 	"vars {\n  monetary $a = balance(@alice, COIN)\n  monetary $b = balance(@alice, USD/2)\n}\nsend $a (\n  source = @world\n  destination = {\n    1/2 to @bob\n    remaining kept\n  }\n)\nsend $b (\n  source = {\n    max $b from @alice\n    @world\n  }\n  destination = @bob\n)\n",
+	// 33 balance of one account spent from another one
+	"vars {\n  monetary $b = balance(@alice, COIN)\n}\nsend $b (\n  source = @treasury\n  destination = @bob\n)\n",
 	// 31 meta + balance + overdraft + save combined
 	"vars {\n  account $user\n  account $fees = meta($user, \"fees_account\")\n  portion $rate = meta($fees, \"rate\")\n  monetary $avail = balance($user, EUR/2)\n}\nsave [EUR/2 100] from $user\nsend $avail (\n  source = $user\n  destination = {\n    $rate to $fees\n    remaining kept\n  }\n)\nset_account_meta($user, \"last\", $avail)\n",
 }
@@ -390,12 +394,29 @@ func c27GenInput(rng *rand.Rand, idx int) c27Input {
 			toks = []string{sb.String() + s}
 		}
 		in.kinds = append(in.kinds, kind)
-		in.text = strings.Join(toks, "")
-		if len(in.text) > 64<<10 {
-			in.text = in.text[:64<<10]
-		}
+		in.text = c27Bound(strings.Join(toks, ""))
 	}
 	return in
+}
+
+// c27Bound keeps generated inputs within the explored envelope: at most
+// c27MaxInputBytes bytes and at most c27MaxCommentNesting comment openers (the
+// lexer's cost explodes with nested or unbalanced `/*`, see c27CommentNestingProbe).
+func c27Bound(s string) string {
+	if len(s) > c27MaxInputBytes {
+		s = s[:c27MaxInputBytes]
+	}
+	from := 0
+	for n := 0; ; n++ {
+		i := strings.Index(s[from:], "/*")
+		if i < 0 {
+			return s
+		}
+		if n == c27MaxCommentNesting {
+			return s[:from+i]
+		}
+		from += i + 2
+	}
 }
 
 func c27Letters(i int) string {
@@ -543,6 +564,12 @@ func (s c27Store) GetBalances(_ context.Context, q vm.BalanceQuery) (vm.Balances
 			mode := s.plan.balanceMode
 			if mode == "mixed" {
 				mode = []string{"rich", "zero", "negative", "huge", "missing", "small"}[rng.Intn(6)]
+			}
+			if mode == "missing-alice" { // only the balances of @alice are left out
+				mode = "rich"
+				if acc == "alice" {
+					mode = "missing"
+				}
 			}
 			var b *big.Int
 			switch mode {
@@ -837,6 +864,7 @@ func runC27(r *core.Run) {
 
 	r.ForEach("main", r.N(60_000, 1_200_000), 0, func(c *core.Case) {
 		in := c27GenInput(c.Rng, c.Index)
+		in.text = c27Bound(in.text)
 		slot := <-slots
 		file := filepath.Join(dir, fmt.Sprintf("%03d.txt", slot))
 		_ = os.WriteFile(file, []byte(fmt.Sprintf("check=C27 seed=%d tier=%s loop=main case=%d origin=%s mutations=%v\n-----\n%s", r.Seed, r.Tier, c.Index, in.origin, in.kinds, in.text)), 0o644)
@@ -955,18 +983,35 @@ func c27Body(c *core.Case, r *core.Run, in c27Input) {
 	}
 	for k := 0; k < plans; k++ {
 		plan := c27MakePlan(rng, prog)
-		if k == 0 && in.origin == "corpus" { // one fully well-typed, rich run of every corpus program
+		storeSeed := rng.Int63()
+		if k < 12 && in.origin == "corpus" {
+			// seed-independent runs of every corpus program with well-typed values:
+			// k=0 rich balances, k=1 every requested balance omitted, k=2.. hostile
+			// mixes with fixed store seeds, the last ones with `null` numbers
 			plan = c27Plan{vars: map[string]string{}, meta: map[string]string{}, balanceMode: "rich"}
+			number := "3"
+			switch {
+			case k == 1:
+				plan.balanceMode = "missing"
+			case k == 2:
+				plan.balanceMode = "missing-alice"
+			case k >= 3:
+				plan.balanceMode = "mixed"
+				storeSeed = int64(k)
+			}
+			if k >= 10 {
+				number = "null"
+			}
 			for _, res := range prog.Resources {
 				switch v := res.(type) {
 				case program.Variable:
-					plan.vars[v.Name] = map[machine.Type]string{machine.TypeAccount: "alice", machine.TypeAsset: "COIN", machine.TypeNumber: "3", machine.TypeMonetary: "COIN 5", machine.TypePortion: "1/4", machine.TypeString: "s"}[v.Typ]
+					plan.vars[v.Name] = map[machine.Type]string{machine.TypeAccount: "alice", machine.TypeAsset: "COIN", machine.TypeNumber: number, machine.TypeMonetary: "COIN 5", machine.TypePortion: "1/4", machine.TypeString: "s"}[v.Typ]
 				case program.VariableAccountMetadata:
-					plan.meta[v.Key] = map[machine.Type]string{machine.TypeAccount: "bob", machine.TypeAsset: "COIN", machine.TypeNumber: "3", machine.TypeMonetary: "COIN 5", machine.TypePortion: "1/4", machine.TypeString: "s"}[v.Typ]
+					plan.meta[v.Key] = map[machine.Type]string{machine.TypeAccount: "bob", machine.TypeAsset: "COIN", machine.TypeNumber: number, machine.TypeMonetary: "COIN 5", machine.TypePortion: "1/4", machine.TypeString: "s"}[v.Typ]
 				}
 			}
 		}
-		out := c27Execute(c, r, in, prog, plan, k, rng.Int63())
+		out := c27Execute(c, r, in, prog, plan, k, storeSeed)
 		r.Count("executions", 1)
 		if k == 0 {
 			first = out
@@ -1000,6 +1045,12 @@ func c27CommentNestingProbe(r *core.Run) {
 		t := time.Now()
 		_, err := compiler.Compile(src)
 		out[fmt.Sprintf("depth_%03d_bytes_%d", d, len(src))] = fmt.Sprintf("%.0f ms (compiled=%v)", float64(time.Since(t).Microseconds())/1000, err == nil)
+	}
+	for _, k := range []int{25, 50, 100} {
+		src := strings.Repeat("/* multi\n /* nested */ x\n", k) + "fail\n"
+		t := time.Now()
+		_, err := compiler.Compile(src)
+		out[fmt.Sprintf("unbalanced_openers_%03d_bytes_%d", k, len(src))] = fmt.Sprintf("%.0f ms (compiled=%v)", float64(time.Since(t).Microseconds())/1000, err == nil)
 	}
 	r.Extra("nested_comment_compile_wall_time_not_a_verdict", out)
 }
